@@ -15,6 +15,7 @@ from vlib import gen, exact
 from vlib.val import line
 
 ID = 'C01'
+PYBASIS_METHODS = ['snap', 'num_functions', 'start', 'end']   # basis.py methods re-translated and proved equal to the hand model each run
 RTOL = 1e-9
 ATOL = 1e-11
 RULE = ('bases: orders 1..6 (8 thorough), open / non-open / periodic with every continuity, interior multiplicities 1..p, '
